@@ -1,6 +1,5 @@
 import Ivg.Lemmas.FitQ
-import Ivg.Gen.Tie.DrawOps
-import Ivg.Gen.Tie.Magic
+import Ivg.Gen.Tie.MiscFields
 import Ivg.Obligations
 /-!
 # C12 — aspect-preserving fitting (`ViewBox.AspectMeet` / `AspectSlice` / `Size`)
@@ -91,7 +90,9 @@ theorem size_eq (v : ViewBox ℚ) : v.size = (v.maxX - v.minX, v.maxY - v.minY) 
 
 end Ivg.Props.C12
 
-#obligations C12 [
-  Ivg.Props.C12.meet_fits, Ivg.Props.C12.slice_covers, Ivg.Props.C12.meet_alignment,
-  Ivg.Props.C12.slice_alignment, Ivg.Props.C12.size_eq,
-  Ivg.Gen.Tie.drawOps_tie, Ivg.Gen.Tie.magic_tie]
+#obligations C12 [Ivg.Props.C12.meet_fits,
+  Ivg.Props.C12.slice_covers,
+  Ivg.Props.C12.meet_alignment,
+  Ivg.Props.C12.slice_alignment,
+  Ivg.Props.C12.size_eq,
+  Ivg.Gen.Tie.viewBox_fields_tie]
